@@ -146,6 +146,13 @@ async fn sni_is_the_uri_host() {
         assert_eq!(wire, Wire::ClientHello { sni: sni.map(str::to_owned) }, "{uri}");
         assert_ne!(caller, Caller::Panicked, "{uri}");
     }
+    // a host that cannot be a server name is not replaced by some other name: nothing is dialled
+    for uri in ["https://a-.example/", "https://1.2.3/", "wss://exa~mple.com:8443/"] {
+        let Some(parts) = parts_for(uri) else { continue };
+        let (caller, wire) = drive(parts).await;
+        println!("{uri:60} caller={caller:?} wire={wire:?}");
+        assert_eq!(wire, Wire::NoConnection, "{uri}");
+    }
 }
 
 /// tls.no_host [C12]: without a host there is nothing to verify the certificate against: the request is
@@ -198,4 +205,44 @@ async fn stream_tls_offers_the_given_name() {
     // the first write drives the handshake; the application bytes must not reach the wire before it
     let _ = tokio::time::timeout(Duration::from_millis(300), stream.write_all(b"GET / HTTP/1.1\r\n\r\n")).await;
     assert_eq!(peer.await.unwrap().as_deref(), Some("replay.example"));
+}
+
+/// NOT an obligation (class A): the scheme -> TLS/plain decision of `TlsTransport::call` cannot be taken
+/// by Verus (match arm with a guard and a `&mut` binding).  This scenario documents the assumed behaviour:
+/// with a TLS configuration, https/wss start a handshake and other schemes go out without TLS.
+#[tokio::test]
+async fn assumed_scheme_decides_tls() {
+    use crate::client::conn::transport::TlsTransport;
+    use crate::info::HasTlsConnectionInfo as _;
+    fixtures::tls_install_default();
+    for (uri, tls) in [
+        ("https://example.com/", true),
+        ("wss://example.com/", true),
+        ("http://example.com/", false),
+        ("ws://example.com/", false),
+        ("ftp://example.com/", false),
+    ] {
+        let (client, incoming) = crate::stream::duplex::pair();
+        let mut transport = TlsTransport::new(DuplexTransport::new(16 * 1024, client))
+            .with_tls(Arc::new(fixtures::tls_client_config()));
+        let parts = parts_for(uri).unwrap();
+        let caller = tokio::spawn(async move {
+            let fut = tower::Service::call(&mut transport, parts);
+            tokio::time::timeout(Duration::from_millis(300), fut).await
+        });
+        let peer = tokio::spawn(async move {
+            let mut incoming = incoming.fuse();
+            let io = incoming.next().await.unwrap().unwrap();
+            let acceptor = tokio_rustls::LazyConfigAcceptor::new(rustls::server::Acceptor::default(), io);
+            matches!(tokio::time::timeout(Duration::from_millis(300), acceptor).await, Ok(Ok(_)))
+        });
+        let saw_client_hello = peer.await.unwrap();
+        let got = caller.await.expect("no panic");
+        println!("{uri:30} client_hello={saw_client_hello} caller={:?}", got.as_ref().map(|r| r.as_ref().map(|s| s.tls_info().is_some()).map_err(|e| e.to_string())));
+        assert_eq!(saw_client_hello, tls, "{uri}");
+        if !tls {
+            let stream = got.expect("plain connect completes").expect("plain connect succeeds");
+            assert!(stream.tls_info().is_none(), "{uri}");
+        }
+    }
 }
